@@ -498,7 +498,8 @@ def scale_from_matrix(matrix):
     try:
         # direction: unit eigenvector corresponding to eigenvalue factor
         w, V = np.linalg.eig(M33)
-        i = np.where(abs(np.real(w) - factor) < 1e-8)[0][0]
+        # the eigenvalues are known to a relative precision only
+        i = np.where(abs(np.real(w) - factor) < 1e-8 * max(1.0, abs(factor)))[0][0]
         direction = np.real(V[:, i]).squeeze()
         direction /= vector_norm(direction)
     except IndexError:
